@@ -46,10 +46,10 @@ CONSTANTS Reqs,       \* request ids (strings)
 (* what an observation key of a generated service reads *)
 Kind == [parm |-> "req", body |-> "req", user |-> "req", hdr |-> "req", partmap |-> "req",
          partvar |-> "sym", pkg |-> "lib",
-         loc |-> "local", arr |-> "local", map |-> "local", rec |-> "local", fn |-> "local"]
+         loc |-> "local", arr |-> "local", mp |-> "local", rec |-> "local", fn |-> "local"]
 Field == [parm |-> "parm", body |-> "body", user |-> "user", hdr |-> "hdr", partmap |-> "part",
           partvar |-> "part", pkg |-> "parm",
-          loc |-> "parm", arr |-> "parm", map |-> "parm", rec |-> "parm", fn |-> "parm"]
+          loc |-> "parm", arr |-> "parm", mp |-> "parm", rec |-> "parm", fn |-> "parm"]
 Keys == DOMAIN Kind
 
 Own(r, f) == r \o "_" \o f
